@@ -20,7 +20,7 @@ def main(ctx, args):
         jobs = [dict(MODE="lit", LO=a, HI=b, LMAX=2) for a, b in split_range(0, 16 * nlit, NCPU - 4)]
         jobs += [dict(MODE="lit", LO=a, HI=b, LMAX=3) for a, b in split_range(0, 16 * 6, 4)]
     else:
-        jobs = [dict(MODE="lit", LO=a, HI=b, LMAX=4) for a, b in split_range(0, 16 * nlit, NCPU * 4)]
+        jobs = [dict(MODE="lit", LO=a, HI=b, LMAX=3) for a, b in split_range(0, 16 * nlit, NCPU * 4)]      # LMAX=4 (31M cases) does not finish in 50 min
     # the same over characters that differ in bit 5 only without being letters (case folding)
     jobs += [dict(MODE="lit", LO=a, HI=b, LMAX=2, ALPHA=2) for a, b in split_range(0, 16 * sum(5 ** i for i in range(0, (1 if ctx.quick else 2) + 1)), 4)]
     # the classifier on operator-bearing strings: every token sequence of <= 2 (3) tokens
